@@ -244,18 +244,20 @@ impl<'a> Reader<&'a [u8]> {
 impl<'a> XmlSource<'a, ()> for &'a [u8] {
     #[cfg(not(feature = "encoding"))]
     #[inline]
-    fn remove_utf8_bom(&mut self) -> io::Result<()> {
+    fn remove_utf8_bom(&mut self, position: &mut u64) -> io::Result<()> {
         if self.starts_with(crate::encoding::UTF8_BOM) {
             *self = &self[crate::encoding::UTF8_BOM.len()..];
+            *position += crate::encoding::UTF8_BOM.len() as u64;
         }
         Ok(())
     }
 
     #[cfg(feature = "encoding")]
     #[inline]
-    fn detect_encoding(&mut self) -> io::Result<Option<&'static Encoding>> {
+    fn detect_encoding(&mut self, position: &mut u64) -> io::Result<Option<&'static Encoding>> {
         if let Some((enc, bom_len)) = crate::encoding::detect_encoding(self) {
             *self = &self[bom_len..];
+            *position += bom_len as u64;
             return Ok(Some(enc));
         }
         Ok(None)
